@@ -218,6 +218,12 @@ def r_filter(ctx):
                 add_reject(nd, x, pol, tn)
         elif t[0] == 'un' and t[1] == 'not':
             add_reject(nd, t[2], not pol, tn)
+        elif is_call(t, 'builtins.any') and pol and len(t[2]) == 1 and t[2][0][0] == 'comp' and len(t[2][0][3]) == 1 \
+                and not t[2][0][3][0][1]:
+            add_reject(nd, t[2][0][2], True, tn)        # rejected when some element satisfies the test
+        elif is_call(t, 'builtins.all') and not pol and len(t[2]) == 1 and t[2][0][0] == 'comp' and len(t[2][0][3]) == 1 \
+                and not t[2][0][3][0][1]:
+            add_reject(nd, t[2][0][2], False, tn)       # rejected when some element fails the test
         else:
             rejects.append((nd, t, pol, tn))
     for nd in f.stmts(ast.Return):
